@@ -312,6 +312,13 @@ func runC10Chain(r *core.Run, a *Authority, cfg Config, plan *seams.FaultPlan, h
 func c10Health(r *core.Run, a *Authority, cfg Config, when, site, keyPrefix string) {
 	h := a.CheckHealth(a.Now)
 	r.Eventf("health %s: healthy=%v primary=%s", when, h.Healthy(), h.Primary)
+	if a.Persist && h.Healthy() {
+		// A long-lived process answers from its own objects; "recorded" in the property is what the
+		// store holds, which is what a process started now would read.
+		when += " (as read by a newly started process)"
+		h = a.CheckDurableHealth(a.Now)
+		r.Eventf("health %s: healthy=%v primary=%s", when, h.Healthy(), h.Primary)
+	}
 	switch {
 	case h.Healthy():
 		return
